@@ -59,6 +59,7 @@ pub struct ObjectReceiver {
     a_large: u64,
     a_small: u64,
     nb_a_large: u64,
+    nb_blocks: u64,
     object_writer_builder: Rc<dyn ObjectWriterBuilder>,
     object_writer: Option<ObjectWriterSession>,
     block_writer: Option<BlockWriter>,
@@ -104,6 +105,7 @@ impl ObjectReceiver {
             a_large: 0,
             a_small: 0,
             nb_a_large: 0,
+            nb_blocks: 0,
             object_writer_builder,
             object_writer: None,
             block_writer: None,
@@ -190,6 +192,16 @@ impl ObjectReceiver {
 
         if payload_id.sbn < self.blocks_offset as u32 {
             // already completed
+            return Ok(());
+        }
+
+        if payload_id.source_block_length.is_none() && payload_id.sbn as u64 >= self.nb_blocks {
+            // The length of this block cannot be deduced from the block partitioning
+            log::warn!(
+                "SBN {} is out of range, object is partitioned in {} blocks",
+                payload_id.sbn,
+                self.nb_blocks
+            );
             return Ok(());
         }
 
@@ -720,6 +732,7 @@ impl ObjectReceiver {
         self.a_large = a_large;
         self.a_small = a_small;
         self.nb_a_large = nb_a_large;
+        self.nb_blocks = nb_blocks;
 
         self.blocks_variable_size =
             oti.fec_encoding_id == oti::FECEncodingID::ReedSolomonGF28UnderSpecified;
